@@ -235,7 +235,9 @@ package core
 //@   requires [wf] remoteBlock.Header != nil
 //@   ensures [done]   result0 == types.AddBlockSucc ==> !ghost(addmark) && ghost(headmoved) && chain.latestBlock == remoteBlock.Header
 //@   ensures [failed] result0 != types.AddBlockSucc ==> ghost(headmoved) == old(ghost(headmoved)) && chain.latestBlock == old(chain.latestBlock)
-//@   modifies chain.latestBlock, chain.requestIds, ghost(addmark), ghost(headmoved), ghost(stver), ghost(hashKnown), ghost(hashHeight), ghost(hgtKnown), ghost(hgtPv), ghost(hgtHash), ghost(lruU64)
+//@   # the header cache answers the inserted block under its height, whatever it held before (a nil placeholder after a restart)
+//@   ensures [cached] result0 == types.AddBlockSucc ==> @select(@select(ghost(lruU64), ref(chain.topBlocks)), remoteBlock.Header.Height) && @select(@select(ghost(lruHdr), ref(chain.topBlocks)), remoteBlock.Header.Height) == ref(remoteBlock.Header)
+//@   modifies chain.latestBlock, chain.requestIds, ghost(addmark), ghost(headmoved), ghost(stver), ghost(hashKnown), ghost(hashHeight), ghost(hgtKnown), ghost(hgtPv), ghost(hgtHash), ghost(lruU64), ghost(lruHdr)
 
 //@ func blockChain.removeFromCommonAncestor
 //@   option trusted
@@ -257,10 +259,22 @@ package core
 // not keep the removed block - otherwise height queries answer a block that is neither in the hash index nor on
 // the chain. ghost lruU64[c][k]: cache c holds an entry under the uint64 key k.
 //@ ghost lruU64 (Array Int (Array (_ BitVec 64) Bool))
+// ghost lruHdr[c][k]: the header the cache answers under k (the pointer stored by the last effective Add). Add
+// replaces an existing entry; ContainsOrAdd keeps it - after a restart the cache holds nil placeholders for the
+// heights the chain skipped, and an insert that keeps the placeholder hides the inserted block from height queries.
+//@ ghost lruHdr (Array Int (Array (_ BitVec 64) Int))
 //@ func ext_lruAddU64
 //@   option trusted extern=(*github.com/hashicorp/golang-lru.Cache).Add argtype=1:uint64
 //@   ensures ghost(lruU64) == @store(old(ghost(lruU64)), ref(arg0), @store(@select(old(ghost(lruU64)), ref(arg0)), arg1, true))
-//@   modifies ghost(lruU64)
+//@   ensures ghost(lruHdr) == @store(old(ghost(lruHdr)), ref(arg0), @store(@select(old(ghost(lruHdr)), ref(arg0)), arg1, ref(unbox(arg2, *types.BlockHeader))))
+//@   modifies ghost(lruU64), ghost(lruHdr)
+
+//@ func ext_lruContainsOrAddU64
+//@   option trusted extern=(*github.com/hashicorp/golang-lru.Cache).ContainsOrAdd argtype=1:uint64
+//@   ensures ghost(lruU64) == @store(old(ghost(lruU64)), ref(arg0), @store(@select(old(ghost(lruU64)), ref(arg0)), arg1, true))
+//@   ensures old(@select(@select(ghost(lruU64), ref(arg0)), arg1)) ==> ghost(lruHdr) == old(ghost(lruHdr))
+//@   ensures !old(@select(@select(ghost(lruU64), ref(arg0)), arg1)) ==> ghost(lruHdr) == @store(old(ghost(lruHdr)), ref(arg0), @store(@select(old(ghost(lruHdr)), ref(arg0)), arg1, ref(unbox(arg2, *types.BlockHeader))))
+//@   modifies ghost(lruU64), ghost(lruHdr)
 
 //@ func ext_lruRemoveU64
 //@   option trusted extern=(*github.com/hashicorp/golang-lru.Cache).Remove argtype=1:uint64
